@@ -147,6 +147,61 @@ fn parse_op(s: &str) -> Result<Ins, String> {
     })
 }
 
+/// Undo Rust-debug style escaping of a listed string (`\"`, `\\`, `\n`, `\r`, `\t`, `\0`,
+/// `\'`, `\u{..}`); None if the text is not a well-formed escaped string.
+fn unescape(s: &str) -> Option<String> {
+    let mut out = String::new();
+    let mut it = s.chars();
+    while let Some(c) = it.next() {
+        if c != '\\' {
+            if c == '"' {
+                return None; // a bare quote inside an escaped string
+            }
+            out.push(c);
+            continue;
+        }
+        match it.next()? {
+            '"' => out.push('"'),
+            '\\' => out.push('\\'),
+            'n' => out.push('\n'),
+            'r' => out.push('\r'),
+            't' => out.push('\t'),
+            '0' => out.push('\0'),
+            '\'' => out.push('\''),
+            'u' => {
+                if it.next()? != '{' {
+                    return None;
+                }
+                let mut hex = String::new();
+                loop {
+                    let h = it.next()?;
+                    if h == '}' {
+                        break;
+                    }
+                    hex.push(h);
+                }
+                out.push(char::from_u32(u32::from_str_radix(&hex, 16).ok()?)?);
+            }
+            _ => return None,
+        }
+    }
+    Some(out)
+}
+
+/// The same listing read under the other convention a faithful listing may follow: string
+/// constants written with their special characters escaped (and unescaped here).  A listing
+/// that escapes completely reads back to the file's strings this way; one that escapes only
+/// some characters reads back to the file's strings under neither convention.
+pub fn parse_escaped(text: &str) -> Result<Model, String> {
+    let mut m = parse(text)?;
+    for c in m.consts.iter_mut() {
+        if let Const::Str(s) = c {
+            *s = unescape(s).ok_or_else(|| format!("string `{}` is not a well-formed escaped string", s))?;
+        }
+    }
+    Ok(m)
+}
+
 /// Parse a listing. Every `Code` line must belong to exactly one method.
 pub fn parse(text: &str) -> Result<Model, String> {
     // blank lines and trailing blanks after a section header are layout as well; a constant's
